@@ -947,9 +947,43 @@ def rule_r25(repo):
             'and (!x. x <= y) <--> (!y. y <= y) is evaluated to a theorem' % '/'.join(sorted(rlists)), f.loc)
     return res
 
+def rule_r26(repo):
+    """Several rules walk over the argument lists of two applications in parallel (`zip(lhs.strip_comb()[1], rhs.strip_comb()[1])`):
+    position i of one side goes with position i of the other, and every position has to be accounted for.  The pairs must stay a
+    *sequence*.  Filed in a dictionary under one component (`dict(zip(A, B))`, `{a: b for a, b in zip(A, B)}`) two positions
+    with the same left argument and different right ones become one entry, and the position that was dropped is never
+    justified: ~(x = z) | f x x = f y z is then an instance of eq_congruent."""
+    res = RuleResult('C18.R26', 'argument positions walked over in parallel are kept as a sequence of pairs, never filed under one component', floor=6)
+
+    def arg_list(e):
+        t = src(e, 200)
+        return 'strip_comb()[1]' in t or t.endswith('.args')
+    for f in mr.verit_eval_side_functions(repo):
+        flow = None
+        for z in ast.walk(f.node):
+            if not (isinstance(z, ast.Call) and is_name(z.func, 'zip') and len(z.args) == 2):
+                continue
+            flow = flow or flow_of(f.node)
+            a, b = flow.inline(z.args[0]), flow.inline(z.args[1])
+            if not (arg_list(a) and arg_list(b)):
+                continue
+            # what the pairs are put into
+            bad = None
+            for n in ast.walk(f.node):
+                if isinstance(n, ast.Call) and is_name(n.func, 'dict') and n.args and any(x is z for x in ast.walk(n.args[0])):
+                    bad = n
+                if isinstance(n, ast.DictComp) and any(x is z for g in n.generators for x in ast.walk(g.iter)):
+                    bad = n
+            res.add('%s :: %s :: parallel-arguments@%d' % (f.module.rel, f.qualname, z.lineno - f.node.lineno), bad is None,
+                    'the pairs are used as a sequence' if bad is None else
+                    'line %d files the argument pairs in a dictionary (`%s`): two positions with the same first argument and different partners become one, '
+                    'the dropped position is never justified - ~(x = z) | f x x = f y z is accepted' % (bad.lineno, src(bad, 70)),
+                    '%s:%d' % (f.module.rel, z.lineno))
+    return res
+
 
 def rules(repo):
     r1 = mr.zip_rule(repo, 'C18.R1', mr.verit_eval_side_functions(repo), floor=9)
     r2 = mr.hyps_rule(repo, 'C18.R2', mr.verit_macros, floor=80)
     return [r1, r2, rule_r3(repo), rule_r4(repo), rule_r5(repo), rule_r6(repo), rule_r7(repo), rule_r8(repo), rule_r9(repo), rule_r10(repo), rule_r11(repo), mr.expansion_uses_rule(repo, 'C18.R12', mr.verit_macros, floor=15), rule_r13(repo), rule_r14(repo),
-            rule_r15(repo), rule_r16(repo), rule_r17(repo), rule_r18(repo), rule_r19(repo), rule_r20(repo), rule_r21(repo), rule_r22(repo), rule_r23(repo), rule_r24(repo), rule_r25(repo)]
+            rule_r15(repo), rule_r16(repo), rule_r17(repo), rule_r18(repo), rule_r19(repo), rule_r20(repo), rule_r21(repo), rule_r22(repo), rule_r23(repo), rule_r24(repo), rule_r25(repo), rule_r26(repo)]
